@@ -44,17 +44,20 @@ def _validate(ctx, recs):
         if info and info.get("genbug"):
             raise Machinery("generator produced a source outside the property's domain: %s" % json.dumps(r)[:600])
         fails.append(Failure(_signature(r, info), _describe(r, info), {"family": "convert", "record": r}))
+        fails[-1].before = [x for x in recs[max(0, idx - 400):idx]]
     fails.sort(key=lambda f: len(json.dumps(f.payload)))
     return fails
 
 
-def _rerun(ctx, rec):
+def _rerun(ctx, rec, before=()):
     vh = ctx.build(PKG)
     d = ctx.sub("replay")
     i, o = os.path.join(d, "in.ndjson"), os.path.join(d, "out.ndjson")
-    open(i, "w").write(json.dumps(rec) + "\n")
-    ctx.run([vh, "cv-rerun", "-in", i, "-out", o], timeout=120)
-    new = json.loads(open(o).read())
+    with open(i, "w") as fh:       # the cases `before` are executed first, in the same fresh process
+        for b in list(before) + [rec]:
+            fh.write(json.dumps(b) + "\n")
+    ctx.run([vh, "cv-rerun", "-in", i, "-out", o], timeout=1800)
+    new = json.loads(open(o).read().splitlines()[-1])
     bad = ctx.validate("Trace_Convert", [new], shards=1)
     if bad and bad[0][1] and bad[0][1].get("genbug"):
         raise Machinery("replayed source is outside the property's domain: %s" % bad[0][1])
@@ -114,10 +117,14 @@ def run(ctx):
     ctx.count(0, [], samples)
     ctx.cov["features"] = dict(feats)
     ctx.log("records=%d features=%s" % (total, dict(feats)))
-    ctx.report(fails, lambda f: _rerun(ctx, f.payload["record"])[0])
+
+    def confirm(f):
+        return _rerun(ctx, f.payload["record"])[0]
+    confirm.in_context = lambda before, f: _rerun(ctx, f.payload["record"], before)[0]
+    ctx.report(fails, confirm)
 
 
 def replay(ctx, payload):
-    ok, new, info = _rerun(ctx, payload["payload"]["record"])
+    ok, new, info = _rerun(ctx, payload["payload"]["record"], payload["payload"].get("context") or ())
     print(json.dumps({"info": info})[:3000])
     return ok
